@@ -1,5 +1,6 @@
 import AdaptiveModel.Drv.Seq
 import AdaptiveModel.Drv.Runner
+import AdaptiveModel.Drv.SaveFs
 /-!
 Line-protocol driver: `lake env lean --run Driver.lean < ops.txt`.
 Each input line is `<component> <op> <args…>`; one output line per input line.
@@ -12,6 +13,7 @@ def stepAll (a : All) (line : String) : All × String :=
   match (line.trimAscii.toString.splitOn " ").filter (· ≠ "") with
   | "seq" :: rest => let (s, o) := Seq.Drv.stepLine a.seq rest; ({ a with seq := s }, o)
   | "run" :: rest => let (s, o) := Runner.Drv.stepLine a.run rest; ({ a with run := s }, o)
+  | "save" :: rest => (a, SaveFs.Drv.stepLine rest)
   | _ => (a, "bad-component")
 
 partial def loop (h : IO.FS.Stream) (out : IO.FS.Stream) (a : All) : IO Unit := do
